@@ -23,7 +23,7 @@ def body(c, prop="C12", kinds='{"val", "del", "exp"}', nvks=(1,), invariants=("R
             consts.update(MaxTs="3", MaxId="6")
             if kinds.count(',') >= 3:
                 # retention is decided per key: with all four entry kinds the quick model check uses one key
-                consts.update(Keys="{1}", MaxTs="4", MaxId="7")
+                consts.update(Keys="{1}", MaxTs=("3" if nvk == 1 else "4"), MaxId="6")
         L.model_check(c, "picks NVK=%d" % nvk, consts, invariants, timeout=1800)
     if prop == "C12":
         # the base level: without the clamp at the first non-empty level (code before the repair) and with
